@@ -37,6 +37,7 @@ func init() {
 			"and re-entrant calls ran in between) and proved, by the relational abstract interpreter, at every release in Set, Del and Clear, including the release in front of the OnDelete " +
 			"window; newCache establishes MaxSize >= 1, MaxCount >= 1, MaxElementSize <= MaxSize; (R7) Set's refuse / evict / store decision as a table over its four tests; the six list " +
 			"primitives have the effect of a circular doubly linked list (symbolic heap evaluation). " +
+			"The limits the cache works with are the configured ones (0 = unlimited, element limit = min(MaxElementSize or MaxSize, MaxSize)): newCache evaluated on a grid realising every order type of the three limits and its constants. " +
 			"Not decided: LRU order and latest-Set-wins as relations over whole histories.",
 		Technique: "linear-constraint abstract interpretation (inductive invariant of the critical sections) + CFG/SSA rules: guard-consistency typestate, event pairing inside lock regions, stale-value-across-unlock dataflow, path event counting, decision tables, symbolic heap evaluation",
 		Note:      "Trusted: go/ssa. The invariant 'with LRU every mapped item is linked and the list is non-empty whenever the eviction loop runs' is assumed (argued in DESIGN.md).",
@@ -216,6 +217,7 @@ func runC10(c *Ctx) {
 		return
 	}
 	c.L.Floor("C10.insert-atomic", 2)
+	c09ConfigExact(c) // the bounds every Stats snapshot must respect are the configured ones
 	c10InsertAtomic(c, c.fn("cache", "cache.Set"))
 	for _, fn := range ci.fns {
 		if ci.helper[fn] || fn.Name() == "structPtr" {
@@ -359,6 +361,7 @@ func runC09(c *Ctx) {
 	c.L.Floor("C09.no-stale-after-relock", 1)
 	c.L.Floor("C09.refusal-pure", 1)
 	c09Config(c)
+	c09ConfigExact(c)
 	c09Bounds(c)
 	c.L.Floor("C09.set-result", 1)
 	c.L.Floor("C09.get-counts", 2)
@@ -1630,6 +1633,43 @@ func c09SetDecision(c *Ctx, set *ssa.Function) {
 		asg := map[string]bool{"T": m&1 != 0, "L": m&2 != 0, "S": m&4 != 0, "N": m&8 != 0}
 		b := set.Blocks[0]
 		outcome := ""
+		// a condition kept in a variable (`full := a || b; if full && ...`) is
+		// a phi of the atoms: its value is the one of the edge the walk took
+		var prev *ssa.BasicBlock
+		phiVal := map[*ssa.Phi]ssa.Value{}
+		goTo := func(nb *ssa.BasicBlock) {
+			prev, b = b, nb
+			for _, in := range nb.Instrs {
+				phi, ok := in.(*ssa.Phi)
+				if !ok {
+					break
+				}
+				for i, p := range nb.Preds {
+					if p == prev {
+						phiVal[phi] = phi.Edges[i]
+					}
+				}
+			}
+		}
+		var truthOf func(v ssa.Value, depth int) (bool, bool)
+		truthOf = func(v ssa.Value, depth int) (bool, bool) {
+			cond, truth := core.StripNot(v, true)
+			if k, isK := core.ConstBool(cond); isK {
+				return k == truth, true
+			}
+			if phi, isPhi := cond.(*ssa.Phi); isPhi && depth < 6 {
+				if e, ok := phiVal[phi]; ok {
+					r, ok := truthOf(e, depth+1)
+					return r == truth, ok
+				}
+				return false, false
+			}
+			name, ok := classify(cond)
+			if !ok {
+				return false, false
+			}
+			return asg[name] == truth, true
+		}
 		for steps := 0; steps < 64 && outcome == "" && undec == ""; steps++ {
 			evicts := false
 			for _, in := range b.Instrs {
@@ -1669,18 +1709,18 @@ func c09SetDecision(c *Ctx, set *ssa.Function) {
 					outcome = "return"
 				}
 			case *ssa.Jump:
-				b = b.Succs[0]
+				goTo(b.Succs[0])
 			case *ssa.If:
-				cond, truth := core.StripNot(t.Cond, true)
-				name, ok := classify(cond)
+				taken, ok := truthOf(t.Cond, 0)
 				if !ok {
+					cond, _ := core.StripNot(t.Cond, true)
 					undec = "a test that is not one of the four recognised ones: " + core.Describe(cond)
 					break
 				}
-				if asg[name] == truth {
-					b = b.Succs[0]
+				if taken {
+					goTo(b.Succs[0])
 				} else {
-					b = b.Succs[1]
+					goTo(b.Succs[1])
 				}
 			default:
 				undec = "unexpected block end"
